@@ -47,7 +47,7 @@ def stepSyncCached (env : KeyEnv) (nested : Nested) (sem : Sem) (gi : Nat) (g : 
         | .none => ns
       match r.pause with
       | some p =>
-        (.pause p (log ++ [startEv] ++ mid ++
+        (.pause p s (log ++ [startEv] ++ mid ++
           [.ev { kind := "NodeError", span := sp, parent := some runSpan, name := nd.name }]), r.cache)
       | .none =>
         match r.res with
@@ -75,7 +75,7 @@ def runLoopCached (step : Nat → GState → List NodeD → Lru (AL Val) → Ste
       match step k s1 rs c with
       | (.ok ns l, c1) => runLoopCached step g active maxIter fuel (k + 1) ns (log ++ l) c1
       | (.fail e ps l, c1) => (.fail e ps (log ++ l) (k + 1), c1)
-      | (.pause p l, c1) => (.pause p s1 (log ++ l) (k + 1), c1)
+      | (.pause p ps l, c1) => (.pause p ps (log ++ l) (k + 1), c1)
 
 /-- what `runGraph` does with the outcome of its loop (verbatim): output filtering, run-end, shutdown.
 `runGraph … = finishRunC … (runLoop …)` holds by `rfl` (`HG.Cache.runGraph_sync_eq`). -/
